@@ -1,9 +1,9 @@
 #!/bin/sh
 # Extract the Coq model to OCaml (ExtrOcamlBasic only) and build the correspondence runner.
 set -e
-mkdir -p /verif/build/runner
-cd /verif/build/runner
-coqc -Q /verif/coq/theories VD -o /verif/build/runner/Extract.vo /verif/coq/theories/Extract/Extract.v
-cp /verif/runner/driver.ml .
-ocamlfind ocamlopt -O3 -w -a -package str model.mli model.ml driver.ml -o runner 2>/dev/null \
-  || ocamlfind ocamlopt -w -a model.mli model.ml driver.ml -o runner
+V=$(cd "$(dirname "$0")/.." && pwd)
+mkdir -p $V/build/runner
+cd $V/build/runner
+coqc -Q $V/coq/theories VD -o $V/build/runner/Extract.vo $V/coq/theories/Extract/Extract.v
+cp $V/runner/driver.ml .
+ocamlfind ocamlopt -w -a model.mli model.ml driver.ml -o runner
